@@ -64,13 +64,18 @@ theorem source_body_decoders_total (fuel : Nat) (j : Gen.GoFrame.jt808_JTMessage
   · exact (Go.X.isOk_iff _).mp (Gen.GoModel.T0x1206_Parse_total fuel t j)
   · exact (Go.X.isOk_iff _).mp (Gen.GoModel.T0x1211_Parse_total fuel t j)
 
-/-- **0x8003 (re-request list) and 0x9212 (retransmit ranges) as translated never panic and terminate**: the count-driven
+/-- **0x8003 (re-request list), 0x8800 (multimedia re-request), 0x0805 (multimedia id list) and 0x9212 (retransmit ranges)
+as translated never panic and terminate**: the count-driven
 loops read every entry inside the body that the length check admitted (loop invariant `len(body) = head + entry·count`),
 for every body and every receiver state. -/
 theorem source_list_decoders_total (fuel : Nat) (j : Gen.GoFrame.jt808_JTMessage) (hf : j.Body.length < fuel) :
     (∀ t : Gen.GoModel.model_P0x8003, ∃ r, Gen.GoModel.model_P0x8003_Parse fuel t j = .ok r) ∧
-    (∀ t : Gen.GoModel.model_P0x9212, ∃ r, Gen.GoModel.model_P0x9212_Parse fuel t j = .ok r) :=
+    (∀ t : Gen.GoModel.model_P0x9212, ∃ r, Gen.GoModel.model_P0x9212_Parse fuel t j = .ok r) ∧
+    (∀ t : Gen.GoModel.model_P0x8800, ∃ r, Gen.GoModel.model_P0x8800_Parse fuel t j = .ok r) ∧
+    (∀ t : Gen.GoModel.model_T0x0805, ∃ r, Gen.GoModel.model_T0x0805_Parse fuel t j = .ok r) :=
   ⟨fun t => (Go.X.isOk_iff _).mp (Gen.GoModel.P0x8003_Parse_total fuel t j hf),
-   fun t => (Go.X.isOk_iff _).mp (Gen.GoModel.P0x9212_Parse_total fuel t j hf)⟩
+   fun t => (Go.X.isOk_iff _).mp (Gen.GoModel.P0x9212_Parse_total fuel t j hf),
+   fun t => (Go.X.isOk_iff _).mp (Gen.GoModel.P0x8800_Parse_total fuel t j hf),
+   fun t => (Go.X.isOk_iff _).mp (Gen.GoModel.T0x0805_Parse_total fuel t j hf)⟩
 
 end JT.C03
